@@ -9,7 +9,7 @@ def run(chk):
     quick = chk.tier == "quick"
     jobs = c07.make_jobs(chk, 10 if quick else 30)
     jobs = [j for j in jobs if j["id"][0] in "rga"][:6 if quick else 30]     # high-ratio, generated and recorded instances
-    for j in jobs: j["id"] = "c06c:" + j["id"]
+    for j in jobs: j["id"] = "c06c:" + j["id"]; j["eps_out_of_range"] = True
     res = cl.run_jobs(jobs, nproc=4 if quick else 10)
     insts = []; meta = []
     for j in jobs:
@@ -18,6 +18,12 @@ def run(chk):
         if "error" in r or "graph_error" in r: chk.feat("compiled:rejected-or-error"); continue
         chk.case((repr(cfg), j["mode"], j["prune"], "compiled"), ["compiled", j["mode"]] + al.features(cfg), None)
         names = sorted(cfg["nodes"]); cn = list(cfg["conns"])
+        if "calls_eps_oob" in r and r["episodes"] and not j.get("replay_rng", True) is False:
+            last = Counter((c[0], c[1]) for c in r["episodes"][-1]["calls"]); oob = Counter((c[0], c[1]) for c in r["calls_eps_oob"])
+            if last != oob:
+                k0 = next(k for k in set(last) | set(oob) if last.get(k, 0) != oob.get(k, 0))
+                chk.violation("compiled-out-of-range-episode-executes-other-steps", f"init(starting_eps beyond the last episode): {k0[0]}[{k0[1]}] executed {oob.get(k0, 0)} times, "
+                              f"in the last episode (to which the index is clipped) {last.get(k0, 0)} times", case)
         for e, ep in enumerate(r["episodes"]):
             if "rows" not in ep: chk.feat("init_record-unavailable"); continue
             chk.traces_impl += 1
